@@ -2,6 +2,7 @@ package binary
 
 import (
 	"bytes"
+	"io"
 
 	"github.com/tetratelabs/wazero/internal/wasm"
 )
@@ -11,7 +12,9 @@ import (
 // See https://www.w3.org/TR/2019/REC-wasm-core-1-20191205/#custom-section%E2%91%A0
 func decodeCustomSection(r *bytes.Reader, name string, limit uint64) (result *wasm.CustomSection, err error) {
 	buf := make([]byte, limit)
-	_, err = r.Read(buf)
+	// io.ReadFull, unlike bytes.Reader.Read, does not report io.EOF for an empty payload at the very end of
+	// the binary (a valid, empty, trailing custom section), and it reports a truncated payload.
+	_, err = io.ReadFull(r, buf)
 
 	result = &wasm.CustomSection{
 		Name: name,
